@@ -7,6 +7,7 @@ CONSTANTS
   Offsets = {0, 1}
   ColMode = "runes"
   EolEntry = TRUE
+  SymLineMap = "keep"
 INIT Init
 NEXT Next
 INVARIANTS TypeOK WriterIsAdvance SameByte
